@@ -207,6 +207,47 @@ fn g1_sub(a: &[u8; 48], b: &[u8; 48]) -> [u8; 48] {
     }
 }
 
+/// `a + T` for a non-trivial point T = r·P of the cofactor subgroup of E(Fp) (P on the curve, outside
+/// G1): another encoding-level value of a proof-of-possession element for which the pairing
+/// equations still hold
+fn g1_add_cofactor_point(a: &[u8; 48]) -> [u8; 48] {
+    use blst::*;
+    // order of the prime-order subgroup, little endian
+    const R_LE: [u8; 32] = [
+        0x01, 0x00, 0x00, 0x00, 0xff, 0xff, 0xff, 0xff, 0xfe, 0x5b, 0xfe, 0xff, 0x02, 0xa4, 0xbd, 0x53, 0x05, 0xd8, 0xa1, 0x09, 0x08, 0xd8, 0x39, 0x33,
+        0x48, 0x7d, 0x9d, 0x29, 0x53, 0xa7, 0xed, 0x73,
+    ];
+    unsafe {
+        let mut torsion = None;
+        for i in 1u8..=255 {
+            let mut c = [0u8; 48];
+            c[0] = 0x80;
+            c[47] = i;
+            let mut p = blst_p1_affine::default();
+            if blst_p1_uncompress(&mut p, c.as_ptr()) != BLST_ERROR::BLST_SUCCESS || blst_p1_affine_in_g1(&p) {
+                continue;
+            }
+            let (mut j, mut t) = (blst_p1::default(), blst_p1::default());
+            blst_p1_from_affine(&mut j, &p);
+            blst_p1_mult(&mut t, &j, R_LE.as_ptr(), 255);
+            if !blst_p1_is_inf(&t) {
+                torsion = Some(t);
+                break;
+            }
+        }
+        let torsion = torsion.expect("a point of the cofactor subgroup");
+        let mut pa = blst_p1_affine::default();
+        assert!(blst_p1_uncompress(&mut pa, a.as_ptr()) == BLST_ERROR::BLST_SUCCESS);
+        let (mut ja, mut out) = (blst_p1::default(), blst_p1::default());
+        blst_p1_from_affine(&mut ja, &pa);
+        blst_p1_add_or_double(&mut out, &ja, &torsion);
+        let mut bytes = [0u8; 48];
+        blst_p1_compress(bytes.as_mut_ptr(), &out);
+        assert!(bytes != *a);
+        bytes
+    }
+}
+
 fn g2_sub(a: &[u8; 96], b: &[u8; 96]) -> [u8; 96] {
     use blst::*;
     unsafe {
@@ -655,6 +696,8 @@ fn deviations(p: usize, t: u32) -> Vec<Dev> {
         x.reg.k2[0] = 0xc0;
     }));
     d.push(dev("k2", "k2=zero-bytes", |_, x| x.reg.k2 = [0u8; 48]));
+    d.push(dev("k1", "k1+cofactor-point", |_, x| x.reg.k1 = g1_add_cofactor_point(&x.reg.k1)));
+    d.push(dev("k2", "k2+cofactor-point", |_, x| x.reg.k2 = g1_add_cofactor_point(&x.reg.k2)));
     // claimed party id
     d.push(dev("party", "party-id-missing", |_, x| x.reg.party = None));
     d.push(dev("party", "party-id-empty", |_, x| x.reg.party = Some(String::new())));
@@ -800,6 +843,19 @@ fn sequence_menu(m: &Mat) -> Vec<(String, RegB)> {
         r.key(&k);
         r.honest = false;
         menu.push((format!("{}-registers-key-of-{}", m.pools[thief].name, m.pools[victim].name), r));
+    }
+    for (name, k1, k2) in [("k1", true, false), ("k2", false, true)] {
+        let mut r = RegB::honest(m, 1, 1, true);
+        let mut k = m.pools[0].bls.clone();
+        if k1 {
+            k.k1 = g1_add_cofactor_point(&k.k1);
+        }
+        if k2 {
+            k.k2 = g1_add_cofactor_point(&k.k2);
+        }
+        r.key(&k);
+        r.honest = false;
+        menu.push((format!("B-registers-key-of-A-with-{name}-moved-by-a-cofactor-point"), r));
     }
     let mut second = RegB::honest(m, 0, 1, true);
     second.key(&m.fresh.clone());
@@ -1724,7 +1780,10 @@ pub fn run(ctx: &Ctx) -> ! {
          id \"\" → None, KES evolutions = chain KES period − certificate start period with the repository's saturating \
          subtraction, register, stake looked up by the returned party id, SignerWithStake::from_signer) with the chain observer's \
          answer as a parameter, on a Signer obtained from a JSON RegisterSignerMessage (carrying an extra `stake` member) by the \
-         conversions of FromRegisterSignerAdapter; the aggregator's own route is exercised by the aggregator checks",
+         conversions of FromRegisterSignerAdapter; this family gives verdicts on the mithril-common calls only — what the copied \
+         sequence itself lets through (announced evolutions kept unverified, a key accepted for two pools) is COUNTED here \
+         (observation:verifier_*) and JUDGED on the real aggregator by part 2 (mc-aggregator/src/c07agg.rs: keys \
+         C07/aggregator-accepts-unverified-announced-kes-evolution, C07/aggregator-accepts-key-already-registered-by-another-pool[:…])",
     );
     rep.assume(
         "trusted base of the oracle: ed25519-dalek (non-strict `verify`, as RFC 8032 permits), kes-summed-ed25519 at evolutions \
